@@ -22,6 +22,7 @@ def warmup(tier):
     env.load()
     for v in VERSIONS:
         _table(v)
+        _pool(v, tier)
 
 
 def _table(v):
@@ -196,18 +197,18 @@ def scn_history(ctx):
     from nuspacesim.simulation.taus.taus import Taus
 
     ch, tier = ctx.ch, ctx.tier
-    v = VERSIONS[ch.draw(3, "table_version")]
-    P = _pool(v, tier)
-    m = len(P["E"])
-    in_idx = np.nonzero(P["e_ok"])[0]
-    objs = [Taus(_config(v))]
-    memo = {}
+    v0 = VERSIONS[ch.draw(3, "table_version")]
+    objs = [(v0, Taus(_config(v0)))]
+    memos = {v0: {}}
     n_ops = 4 + ch.draw(36, "n_ops")
-    ctx.describe.update(table_version=v, n_ops=n_ops, pool=m)
-    ctx.log(f"history table={v} ops={n_ops} pool={m}")
+    ctx.describe.update(table_version=v0, n_ops=n_ops, pool=len(_pool(v0, tier)["E"]))
+    ctx.log(f"history table={v0} ops={n_ops}")
     kinds_seen = set()
     for opi in range(n_ops):
-        obj = objs[ch.draw(len(objs), "object")]
+        v, obj = objs[ch.draw(len(objs), "object")]
+        P = _pool(v, tier)
+        m = len(P["E"])
+        memo = memos[v]
         kind = ch.draw(8, "op")
         if kind in (0, 6, 7):
             idx = histsim.draw_indices(ch, m, 96)
@@ -227,11 +228,13 @@ def scn_history(ctx):
         elif kind == 3:
             idx = histsim.draw_indices(ch, m, 32)
             name = "reject"
-        else:  # 5: bring a second object of the same version into play
-            if len(objs) < 3:
-                objs.append(Taus(_config(v)))
-                ctx.probes["second_object"] += 1
-            ctx.log(f"op{opi} new-object n={len(objs)}")
+        else:  # 5: bring another object into play: same version, or another shipped version
+            if len(objs) < 4:
+                nv = v0 if ch.draw(3, "other_version") == 0 else VERSIONS[ch.draw(3, "new_version")]
+                objs.append((nv, Taus(_config(nv))))
+                memos.setdefault(nv, {})
+                ctx.probes["second_object" if nv == v0 else "object_of_other_version"] += 1
+                ctx.log(f"op{opi} new-object table={nv} n={len(objs)}")
             continue
         kinds_seen.add(name)
         idx = np.asarray(idx)
@@ -293,15 +296,22 @@ def scn_history(ctx):
             _check_values(ctx, v, P, idx, out[4], memo, "__call__[tauExitProb]", opi)
         if histsim.digest_args((E, B)) != before:
             raise Violation("c05.argument_modified", f"op {opi} {name}: the caller's arrays were modified", sig="args")
-    # a fresh object answers everything asked so far identically
-    asked = np.array(sorted(memo), dtype=np.int64)
-    if asked.size:
-        got = Taus(_config(v)).tau_exit_prob(np.array(P["B"][asked]), np.array(P["E"][asked]))
-        _check_values(ctx, v, P, asked, got, memo, "fresh-object", n_ops)
-        got = objs[0].tau_exit_prob(np.array(P["B"][asked]), np.array(P["E"][asked]))
-        _check_values(ctx, v, P, asked, got, memo, "first-object-at-end", n_ops)
-    ctx.log(f"end asked={asked.size} kinds={sorted(kinds_seen)}")
-    cats = set(P["cat"][i] for i in asked.tolist())
+    # a fresh object — and the first one — answer everything asked so far identically
+    total = 0
+    cats = set()
+    for v, memo in memos.items():
+        P = _pool(v, tier)
+        asked = np.array(sorted(memo), dtype=np.int64)
+        total += asked.size
+        if asked.size:
+            got = Taus(_config(v)).tau_exit_prob(np.array(P["B"][asked]), np.array(P["E"][asked]))
+            _check_values(ctx, v, P, asked, got, memo, f"fresh-object[table {v}]", n_ops)
+            first = next(o for (vv, o) in objs if vv == v)
+            got = first.tau_exit_prob(np.array(P["B"][asked]), np.array(P["E"][asked]))
+            _check_values(ctx, v, P, asked, got, memo, f"first-object-at-end[table {v}]", n_ops)
+            cats |= set(P["cat"][i] for i in asked.tolist())
+    ctx.log(f"end asked={total} kinds={sorted(kinds_seen)} tables={sorted(memos)}")
+    asked = np.zeros(total)
     for c in cats:
         ctx.probes["cat_" + c] += 1
     ctx.nontrivial = len(kinds_seen) >= 2 and asked.size >= 2
@@ -342,7 +352,7 @@ def scn_nodes(ctx):
 
 
 FAMILIES = {"history": scn_history, "nodes": scn_nodes}
-PLAN = {"quick": [("history", 9000, 50), ("nodes", 90, 3)], "thorough": [("history", 300000, 200), ("nodes", 1500, 10)]}
+PLAN = {"quick": [("history", 6000, 50), ("nodes", 90, 3)], "thorough": [("history", 300000, 200), ("nodes", 1500, 10)]}
 BUDGET = {"quick": 150, "thorough": 1500}
 
 META = {
